@@ -21,4 +21,5 @@ F_Deterministic == ContextDeterministic
 F_MarkerSeen    == MarkerPriority
 F_RootInside    == RootInsideInput
 F_TempRemoved   == TempDirRemoved
+F_StaysInside   == ExtractionStaysInTempDir
 =============================================================================
